@@ -179,6 +179,9 @@ def gen_shifts(t, Tr, m):
         rhs_kinds.append(('const N: usize, const M: usize', f'{B}<M>', B.replace('$', '') + 'M', lambda e: f'{TT}::bn_ops_sh_req({e}@)', lambda e: f'{TT}::bn_ops_sh_amt({e}@)', f'{B}<M>'))
     for G, P, pname, req, amt, vv_p in rhs_kinds:
         s = ''
+        # A0 for the amount's type (`N >= 1` for `BUint<M>`): the conversion `ExpType::try_from(rhs)` needs it; it is part of the
+        # SpecImpl `*_req` but not of the panic condition (`mpreq`), where it stays a plain precondition of the dual
+        sreq = (lambda e, _r=req: 'bn_wf(M) && ' + _r(e)) if 'const M' in G else req
         inh_named = (P == 'u32')
         forms = [
             (f'impl({Tr}<{vv_p}>for{TN})::{m}', TN, vv_p, 'self', 'rhs', inh_named, True),
@@ -187,7 +190,7 @@ def gen_shifts(t, Tr, m):
             (f'impl({Tr}<{P}>for&{TN})::{m}', f'&{TN}', P, '(*self)', 'rhs', True, False),
         ]
         for key, sty, rty, a, b, named, inherent in forms:
-            s += specimpl(G, Tr, rty, sty, m, req(b), f'{a}.bn_ops_{m}_res({amt(b)})', TN)
+            s += specimpl(G, Tr, rty, sty, m, sreq(b), f'{a}.bn_ops_{m}_res({amt(b)})', TN)
             # the reference/assign forms delegate to the by-value trait form; when that one cannot carry an
             # `ensures` (named-return limitation) all they know - and state - is the trait-level `r == *_spec`
             if inh_named or inherent or not named:
@@ -199,7 +202,7 @@ def gen_shifts(t, Tr, m):
                 fns.append(fn_entry(key, True, f'{a}.bn_ops_{m}_vpost({amt(b)}, r)', f'bn_lemma_ops_val_{t}::<N>({a}, {a}, {amt(b)});'))
         for key, rty, b in [(f'impl({Tr}Assign<{P}>for{TN})::{m}_assign', P, 'rhs'),
                             (f'impl({Tr}Assign<&{P}>for{TN})::{m}_assign', f'&{P}', '(*rhs)')]:
-            s += specimpl(G, Tr + 'Assign', rty, TN, m + '_assign', req(b), f'(*self).bn_ops_{m}_res({amt(b)})', TN, assign=True)
+            s += specimpl(G, Tr + 'Assign', rty, TN, m + '_assign', sreq(b), f'(*self).bn_ops_{m}_res({amt(b)})', TN, assign=True)
             if inh_named:
                 fns.append(fn_entry(key, False, f'(*old(self)).bn_ops_{m}_post({amt(b)}, *final(self))'))
             else:
